@@ -353,6 +353,11 @@ func (s StorageOnly) Push(ctx context.Context, d ocispec.Descriptor, r io.Reader
 
 // callback records a callback invocation and applies a fault if placed there.
 func (m *Monitor) callback(name string, node int) error {
+	if d := m.Latency[fmt.Sprintf("cb.%s.%d", name, node)]; d > 0 && !simrt.Observing() {
+		// the caller's hook is slow to be reached (its notification is recorded when it runs)
+		time.Sleep(d)
+		simrt.Yield("cb." + name + ".latency")
+	}
 	k := m.enter("cb", name, node)
 	var err error
 	if k == "before" || k == "after" {
